@@ -253,7 +253,9 @@ export function iso(_isographLiteralText: string):
                     format!(
                         "    case '{}':
       return entrypoint_{};\n",
-                        entrypoint_declaration_info.iso_literal_text,
+                        single_quoted_string_content(
+                            entrypoint_declaration_info.iso_literal_text.lookup()
+                        ),
                         field
                             .entity_name_and_selectable_name()
                             .underscore_separated()
@@ -464,4 +466,22 @@ fn sort_field_name(field_1: SelectableName, field_2: SelectableName) -> Ordering
     } else {
         field_1.cmp(field_2)
     }
+}
+
+/// The characters to write between single quotes so that the JavaScript string
+/// has the given value.
+fn single_quoted_string_content(value: &str) -> String {
+    let mut escaped = String::with_capacity(value.len());
+    for c in value.chars() {
+        match c {
+            '\\' => escaped.push_str("\\\\"),
+            '\'' => escaped.push_str("\\'"),
+            '\n' => escaped.push_str("\\n"),
+            '\r' => escaped.push_str("\\r"),
+            '\u{2028}' => escaped.push_str("\\u2028"),
+            '\u{2029}' => escaped.push_str("\\u2029"),
+            c => escaped.push(c),
+        }
+    }
+    escaped
 }
